@@ -122,9 +122,9 @@ let cmd_enc () =
       let pcn = n_of_int (int_of_string pc) in
       let m = match process fuel ctx op (List.map fst pairs) pcn with
         | Ok bs -> hex_of_bytes bs | Err _ -> "ERR" | Panic -> "PANIC" | OutOfFuel -> "FUEL" in
-      let sp = expect core (z_of_string pc) (cstr (String.lowercase_ascii name)) (List.map snd pairs) in
+      let sp = expect_at core (z_of_string pc) (cstr (String.lowercase_ascii name)) (List.map snd pairs) in
       let spec, dec = match sp with
-        | Some ws -> words_hex ws, (match decode core (z_of_string pc) ws with
+        | Some ws -> words_hex ws, (match decode core ws with
                                     | Some (n, w) -> string_of_cstring n ^ ":" ^ String.concat "," (List.map show_warg w) | None -> "UNDECODABLE")
         | None -> "NONE", "-" in
       Printf.printf "%s %s %s\n" m spec dec
